@@ -290,6 +290,12 @@ func c02Build(toks []string) (*c02World, error) {
 		}
 	}
 	w.cfg = &config.Config{SubscriberGroups: &subscriber.SubscriberGroupsConfig{Groups: groups}, IPv4Profiles: v4, IPv6Profiles: v6}
+	// the address profiles of the generated configuration go through the real Config.Validate before anything is
+	// built from them, as at load time (the subscriber groups of the harness are bare - no access types, parent
+	// interfaces - and would be refused for reasons that have nothing to do with addresses: they are left out)
+	if err := (&config.Config{IPv4Profiles: v4, IPv6Profiles: v6}).Validate(); err != nil {
+		return nil, c02Rejected{err}
+	}
 	w.store = &c02Store{data: map[string][]byte{}}
 	w.store.order = func(keys []string) {
 		rank := func(id string) int { // declaration order of the subscriber, then incarnation
@@ -726,6 +732,9 @@ func (w *c02World) snap() string {
 		" | " + w.rename(w.prov6.VerifC02Leases()) + " | " + w.storeSnap()
 }
 
+// c02Rejected: Config.Validate refused the generated configuration
+type c02Rejected struct{ error }
+
 func c02RunCase(line string) (out string) {
 	defer func() {
 		if r := recover(); r != nil {
@@ -736,6 +745,9 @@ func c02RunCase(line string) (out string) {
 	cfg := strings.Fields(parts[0])
 	w, err := c02Build(cfg[1:]) // cfg[0] == "B"
 	if err != nil {
+		if _, ok := err.(c02Rejected); ok {
+			return "rejected-config" // Config.Validate refused the configuration: nothing runs
+		}
 		return "cfgerr " + strings.ReplaceAll(err.Error(), " ", "_")
 	}
 	_ = session.GenerateID
